@@ -289,3 +289,4 @@ panic_cells! {
     c11_panic_iter_s_iter_m: K_ITER, false, K_ITER, true, true, false;
     c11_panic_iter_m_clone: K_ITER, true, K_CLONE, false, true, false;
 }
+
